@@ -137,13 +137,17 @@ Section SysProp.
   Variable g : scfg.
   Variable h : N -> N -> N.
 
-  (* one chain report of the Filter outcome against the agreed rounds *)
+  (* one chain report of the Filter outcome against the agreed rounds.
+     The interval test of (i) ("the message lies in the interval of its agreed commit report",
+     C07_used_needs_quorum_cycle) was added with Proofs/JudgeSoundExecSysP.v: before, a report holding a message outside
+     the agreed interval passed (witness chain_report_ok_before_weak there). *)
   Definition chain_report_ok (r1 r2 : rctx) (fchain3 : list (N * Z)) (aos3 : list sao) (r : creport) : bool :=
     existsb (fun cd2 =>
       C8.owns cd2 r && C8.reverify h r (c_root cd2) &&                                  (* (b) *)
       existsb (fun cd1 =>
         core_eqb cd1 cd2 && commit_agreed (s_dest g) (rc_fchain r1) (rc_aos r1) cd1 &&             (* wiring, (i) *)
-        forallb (fun m => negb (memN (m_seq m) (c_exec cd1))) (r_msgs r))               (* (c) *)
+        forallb (fun m => negb (memN (m_seq m) (c_exec cd1)) &&                         (* (c) *)
+                          PS.in_range (c_start cd1) (c_end cd1) (m_seq m)) (r_msgs r))  (* (i), interval *)
         (o_pending (rc_out r1)) &&
       Nat.eqb (length (r_msgs r)) (length (r_td r)) &&
       forallb (fun mt =>
